@@ -21,20 +21,22 @@ fn error_bounds<const B: Word>(
             (FBig::ZERO, FBig::ZERO, true, true)
         } else {
             match f.repr().sign() {
-                Sign::Positive => (f.ulp(), FBig::ZERO, false, true),
-                Sign::Negative => (FBig::ZERO, f.ulp(), true, false),
+                Sign::Positive => (ulp_towards_zero(f), FBig::ZERO, false, true),
+                Sign::Negative => (FBig::ZERO, ulp_towards_zero(f), true, false),
             }
         }
         /*@ proof {
             if f.context.precision != 0 && f.repr.significand.v() != 0 {
                 let (b, sig, exp, p) = (B as int, f.repr.significand.v(), f.repr.exponent as int, f.context.precision as int);
                 let d = ndigits(b, sig) as int;
+                let pw = eb_pow(sig);
+                let g = eb_g(b, sig);
                 let m = sig * ipow(b, (p - d) as nat);
                 lemma_grid_sig(b, sig, (p - d) as nat);
-                lemma_half_units(b, exp + d - p);
-                lemma_eb_table(Mode::Away, m);
-                let t = eb_table(Mode::Away, m);
-                assert(eb_exact(Mode::Away, m, t.0, t.1, ret.2, ret.3));
+                lemma_half_units(b, exp + d - p, pw);
+                lemma_eb_table(Mode::Away, m, g);
+                let t = eb_table(Mode::Away, m, g);
+                assert(eb_exact(Mode::Away, m, g, t.0, t.1, ret.2, ret.3));
             }
         } @*/
     }
